@@ -166,11 +166,16 @@ theorem wf_setGroup_inert {st : State} (h : WF st) (g : Nat)
   all_goals first | (exact fun _ h => Or.inl h) | (exact fun _ _ h => Or.inl h) | simp
 
 theorem wf_setScope_inert {st : State} (h : WF st) (s : Nat) (f : Scope → Scope)
-    (hf : ∀ x, (f x).exists_ = x.exists_ ∧ ((f x).deadline.isSome → x.exists_ = true) ∧
-      (f x).parent = x.parent ∧ (f x).active = x.active ∧ (f x).entered = x.entered ∧
-      (f x).host = x.host ∧ (f x).tasks = x.tasks ∧ (f x).children = x.children ∧
-      (f x).chain = x.chain) : WF (st.setScope s f) := by
-  have hf' := hf (st.scopes s)
+    (hf : (f (st.scopes s)).exists_ = (st.scopes s).exists_ ∧
+      ((f (st.scopes s)).deadline.isSome → (st.scopes s).deadline.isSome ∨
+        (st.scopes s).exists_ = true) ∧
+      (f (st.scopes s)).parent = (st.scopes s).parent ∧
+      (f (st.scopes s)).active = (st.scopes s).active ∧
+      (f (st.scopes s)).entered = (st.scopes s).entered ∧
+      (f (st.scopes s)).host = (st.scopes s).host ∧ (f (st.scopes s)).tasks = (st.scopes s).tasks ∧
+      (f (st.scopes s)).children = (st.scopes s).children ∧
+      (f (st.scopes s)).chain = (st.scopes s).chain) : WF (st.setScope s f) := by
+  have hf' := hf
   apply wf_congr h
   case tk => intro u; simp
   case tkst => intro u; simp
@@ -183,7 +188,11 @@ theorem wf_setScope_inert {st : State} (h : WF st) (s : Nat) (f : Scope → Scop
   case scd =>
     intro x
     by_cases hx : x = s
-    · subst hx; simp only [setScope_scopes, upd_same, hf'.1]; exact hf'.2.1
+    · subst hx; simp only [setScope_scopes, upd_same, hf'.1]
+      intro hd
+      rcases hf'.2.1 hd with hd | hd
+      · exact h.deadline_exists x hd
+      · exact hd
     · simp [hx]; simpa using h.deadline_exists x
   case sc =>
     intro x
